@@ -71,8 +71,17 @@ def graph():
             for ai, a in enumerate(U):
                 for xi, x in enumerate(U):
                     interp.append(Desc(A, a, x) == ((ai, xi) in d))
+        def root_of(mm, x):
+            seen = set()
+            while mm[x] != 3 and x not in seen: seen.add(x); x = mm[x]
+            return x
+        for mm in fam:
+            if not any((x, x) in desc_of(mm) for x in range(3)):          # rootof is only specified for acyclic maps
+                for xi in range(3): interp.append(rootof(arr(mm), nodes[xi]) == nodes[root_of(mm, xi)])
         pmc = Const('pm_c', PAR); interp.append(pmc == arr(m))
         total += check('GRAPH_AX', GRAPH_AX, interp, {str(PAR): [pmc], str(T.z): U})
+        if not any((x, x) in desc_of(m) for x in range(3)):
+            total += check('ROOT_AX', ROOT_AX, interp, {str(PAR): [pmc], str(T.z): U})
     return total
 
 
